@@ -651,8 +651,11 @@ pub fn run_history(root: &str, scn: &mut Scn, oracle: &mut Oracle, st: &mut Stat
         }
         st.getrandom += rec.getrandom_calls;
         if rec.out.timed_out {
+            // the model predicted an ordinary completion (for `run` the library has just answered
+            // the same input in the oracle processes, the other commands do not call it), every
+            // prompt was answered, no fault was injected: not exiting is the tool's doing
             st.hangs += 1;
-            return None;
+            return Some(Fail { clause: "no-exit", inv: i, detail: format!("no exit within {} s on a fault-free invocation with all prompts answered; stdout so far {:?}", cli::INV_TIMEOUT_MS / 1000, tail(&rec.out.stdout)) });
         }
         let rec_after = cli::snapshot(root);
         log_inv(st, &rec, &rec_after);
@@ -837,7 +840,8 @@ fn fails_same(root: &str, scn: &Scn, clause: &str, oracle: &mut Oracle, budget: 
 }
 
 pub fn shrink(root: &str, scn: &Scn, fail: &Fail, oracle: &mut Oracle) -> (Scn, Fail) {
-    let mut budget = 200u32;
+    // every re-execution of a hanging history costs the full watchdog
+    let mut budget = if fail.clause == "no-exit" { 8u32 } else { 200u32 };
     let mut cur = scn.clone();
     let mut curf = fail.clone();
     // 1. cut the history after the failing invocation
